@@ -102,3 +102,12 @@ CASES += [
     dict(id='c02-eq-disjoint-always-by-search', prop='C02', file=HI, expect=None,
          old="   if (std::is_sorted( cont1.cbegin(), cont1.cend())\n       && std::is_sorted( cont2.cbegin(), cont2.cend()))\n      return hasIntersection( cont1.cbegin(), cont1.cend(), cont2.cbegin(),\n         cont2.cend());\n", new=""),
 ]
+
+CASES += [
+    dict(id='c02-end-check-skips-unused', prop='C02', file='src/library/prog_args/detail/argument_container.cpp', expect='R1',
+         old="      argi.data()->checkCardinality();\n   } // end for\n\n} // ArgumentContainer::checkMandatoryCardinality",
+         new="      if (!argi.data()->hasValue())\n         continue;\n      argi.data()->checkCardinality();\n   } // end for\n\n} // ArgumentContainer::checkMandatoryCardinality"),
+    dict(id='c02-eq-end-check-nested-mandatory', prop='C02', file='src/library/prog_args/detail/argument_container.cpp', expect=None,
+         old="      if (argi.data()->isMandatory() && !argi.data()->hasValue())\n         throw runtime_error( \"Mandatory argument '\"",
+         new="      if (!argi.data()->hasValue())\n       if (argi.data()->isMandatory())\n         throw runtime_error( \"Mandatory argument '\""),
+]
